@@ -191,42 +191,35 @@ def s13_3(ctx, prog):
 
 
 def s13_4(ctx, prog, T):
-    """every fixed-arity arm checks its own arity first: all paths from the arm entry to the function's return pass through
-    the `?` of expect_operator_argument_amount(arguments.len(), n) with n = max_argument_amount(kind)"""
+    """every fixed-arity arm checks its own arity before anything else: interpreted with an argument list of every wrong length
+    (0..3 except the operator's arity), each arm of Operator::eval / eval_mut ends in WrongOperatorArgumentAmount on every path and
+    reaches no other outcome (helpers are followed, so it does not matter where the check is written)"""
     arity = T['max_argument_amount']
     op = prog.adt(tables.OPERATOR)
-    idx = {v['name']: v['idx'] for v in op['variants']}
     for fname, kinds in (('eval', [k for k in arity if arity[k] is not None and k not in tables.ASSIGN and k != 'RootNode']), ('eval_mut', list(tables.ASSIGN))):
         f = prog.fn('operator::Operator::<NumericTypes>::' + fname)
         if f is None:
             ctx.unrecognised('S13.4', 'Operator::' + fname, 'missing', 'not found')
             continue
-        sw = switch_on_discriminant(f, 0)
-        if sw is None:
-            ctx.unrecognised('S13.4', 'Operator::' + fname, 'shape', 'no top-level match on self', span=f.span)
-            continue
-        targets = dict((v, tg) for v, tg in sw[1])
-        rets = [b for b in f.live_blocks() if f.term(b)['k'] == 'return']
-        guards = []
-        for b, t in f.calls_to('error::expect_operator_argument_amount'):
-            n = const_of(f, t['args'][1])
-            qm = question_mark(f, b)
-            if n is None or qm is None:
-                continue
-            if not len_call_of(f, t['args'][0], dict(l=2, p=['deref'])):
-                continue
-            guards.append((b, n, qm))
         n_checked = 0
         for k in kinds:
-            entry = targets.get(idx[k], sw[2])
+            v = [x for x in op['variants'] if x['name'] == k][0]
+            selfv = ADT(op['path'], v['idx'], k, [SYM('f_' + fd['name']) for fd in v['fields']])
             want = arity[k]
-            okk = False
-            for b, n, qm in guards:
-                if n != want:
+            bad = []
+            for n in range(0, 4):
+                if n == want:
                     continue
-                # must-pass-through: removing the `?` switch block disconnects the arm entry from every return
-                if all(f.must_pass_through(entry, r, {qm['switch']}) for r in rets) and f.dominates(entry, b) or (entry == b):
-                    okk = True
+                try:
+                    ps = Interp(prog, max_depth=4).paths(f, [selfv, ('tuple', tuple(SYM('a%d' % i) for i in range(n))), SYM('context')])
+                except Budget:
+                    bad.append('%d arguments: too complex' % n)
+                    continue
+                for ret, eff in ps:
+                    if not (is_adt(ret, 'result::Result', 'Err') and is_adt(ret[4][0], 'error::EvalexprError', 'WrongOperatorArgumentAmount')):
+                        bad.append('%d arguments: %s' % (n, fmt(ret)[:80]))
+                if not ps:
+                    bad.append('%d arguments: no path' % n)
             n_checked += 1
-            ctx.check(okk, 'S13.4', '%s:%s' % (fname, k), 'arity-first', 'arm %s checks expect_operator_argument_amount(len, %s) before any other outcome' % (k, want), span=f.span)
+            ctx.check(not bad, 'S13.4', '%s:%s' % (fname, k), 'arity-first', 'arm %s rejects every argument count other than %s with WrongOperatorArgumentAmount before any other outcome (%s)' % (k, want, '; '.join(bad[:3])), span=f.span)
         ctx.counters['arity_arms_' + fname] = n_checked
